@@ -215,7 +215,8 @@ def family(tier):
                     out.append((f"bad.{name}.f{i}.{label}.{dl}", PRELUDE + item + MAIN % {"ctor": ctor, "ty": name}, "bad"))
         # attribute mutations on the valid field set
         for label, attrs in [("norepr", ["zero_copy"]), ("fusedrepr", ["repr(C, align(8))", "zero_copy"]), ("reprrust", ["repr(Rust)", "zero_copy"]),
-                             ("both", ["repr(C)", "zero_copy", "deep_copy"]), ("reprtransparent", ["repr(transparent)", "zero_copy"]), ("packed", ["repr(packed)", "zero_copy"]),
+                             ("both", ["repr(C)", "zero_copy", "deep_copy"]), ("both-deepfirst", ["repr(C)", "deep_copy", "zero_copy"]), ("both-deep-repr-zero", ["deep_copy", "repr(C)", "zero_copy"]),
+                             ("both-zero-repr-deep", ["zero_copy", "repr(C)", "deep_copy"]), ("both-deep-zero-repr", ["deep_copy", "zero_copy", "repr(C)"]), ("reprtransparent", ["repr(transparent)", "zero_copy"]), ("packed", ["repr(packed)", "zero_copy"]),
                              ("alignonly", ["repr(align(8))", "zero_copy"]), ("packed2only", ["repr(packed(2))", "zero_copy"]), ("alignthenzero", ["zero_copy", "repr(align(16))"])]:
             if label == "reprtransparent" and len(fields) != 1:
                 continue
@@ -232,7 +233,8 @@ def family(tier):
                     for derives in (["Epserde, Clone, Copy, Debug"] if is_copy else ["Epserde, Clone, Debug"]):
                         item, ctor = enum_item(name, ZC, derives, nv, vn)
                         out.append((f"bad.{name}.{vn}.f{i}.{label}", PRELUDE + item + MAIN % {"ctor": ctor, "ty": name}, "bad"))
-        for label, attrs in [("norepr", ["zero_copy"]), ("both", ["repr(C)", "zero_copy", "deep_copy"]), ("repru8", ["repr(u8)", "zero_copy"])]:
+        for label, attrs in [("norepr", ["zero_copy"]), ("both", ["repr(C)", "zero_copy", "deep_copy"]), ("both-deepfirst", ["repr(C)", "deep_copy", "zero_copy"]),
+                             ("both-deep-repr-zero", ["deep_copy", "repr(C)", "zero_copy"]), ("repru8", ["repr(u8)", "zero_copy"])]:
             item, ctor = enum_item(name, attrs, "Epserde, Clone, Copy, Debug", variants, "C")
             out.append((f"bad.{name}.attr.{label}", PRELUDE + item + MAIN % {"ctor": ctor, "ty": name}, "bad"))
     # generic zero-copy struct instantiated with a non-zero-copy argument
